@@ -89,6 +89,11 @@ let () =
            | ["D"; idev; u; f; c; m; g] -> Some (XApi (ASetDeviceInformation (z_of_string idev, z_of_string u, z_of_string f, z_of_string c, z_of_string m, z_of_string g)))
            | ["X"] -> Some (XApi ARestart)
            | ["M"; mode; src] -> Some (XApi (ASetMode (z_of_string mode, z_of_string src)))
+           | ["W"; "t"; idev; l] -> Some (XApi (ASetTxList (z_of_string idev, plist (if l = "-" then "" else l))))
+           | ["W"; "r"; idev; l] -> Some (XApi (ASetRxList (z_of_string idev, plist (if l = "-" then "" else l))))
+           | ["O"; "0"; b] -> Some (XApi (ASetOnlyKnown (b = "1")))
+           | ["O"; _; _] -> Some (XBase (RBase (OTick (zi 0))))       (* forwarding options: no effect without a forward stream *)
+           | ["K"; _; m; s; v; ser] -> Some (XApi (ASetProductInformation (unhex ser, zi 666, unhex m, unhex s, unhex v, zi 1, zi 2101, zi 0)))
            | ["L"; which; l] -> Some (XApi (ASetPgnList (z_of_string which, plist (if l = "-" then "" else l))))
            | _ -> (match base_op s with Some o -> Some (XBase o) | None -> None)) opstrs in
        let nonempty = List.map (fun s -> split s <> []) opstrs in
